@@ -111,7 +111,7 @@ inductive Res (α : Type) where
   | ok (a : α)
   | err
   | oom (why : String)
-  deriving Repr
+  deriving Repr, DecidableEq
 
 instance : Monad Res where
   pure := .ok
